@@ -32,7 +32,9 @@ func vmaporder(n int)               {}
 func vobserve(label string, v uint64) { verifObserve(label, v) }
 `
 
-func RTSym(pkg string, doc bool) string {
+func RTSym(pkg string, doc bool) string { return RTSymX(pkg, doc, false) }
+
+func RTSymX(pkg string, doc, bolt bool) string {
 	var sb strings.Builder
 	sb.WriteString("//go:build !verifnative\n\npackage " + pkg + "\n\n")
 	sb.WriteString(`
@@ -49,10 +51,16 @@ func verifObserve(label string, v uint64) {}
 	if doc {
 		sb.WriteString("\nfunc vdoc(m map[string]any) []byte { panic(\"symbolic only\") }\n")
 	}
+	if bolt {
+		sb.WriteString("\nfunc vboltbucket(keys, vals [][]byte) *bbolt.Bucket { panic(\"symbolic only\") }\n")
+		return strings.Replace(sb.String(), "package "+pkg+"\n", "package "+pkg+"\n\nimport \"go.etcd.io/bbolt\"\n", 1)
+	}
 	return sb.String()
 }
 
-func RTNative(pkg string, doc bool) string {
+func RTNative(pkg string, doc bool) string { return RTNativeX(pkg, doc, false) }
+
+func RTNativeX(pkg string, doc, bolt bool) string {
 	var sb strings.Builder
 	sb.WriteString("//go:build verifnative\n\npackage " + pkg + "\n\n")
 	sb.WriteString(`import (
@@ -62,6 +70,9 @@ func RTNative(pkg string, doc bool) string {
 `)
 	if doc {
 		sb.WriteString("\t\"github.com/vmihailenco/msgpack/v5\"\n")
+	}
+	if bolt {
+		sb.WriteString("\t\"os\"\n\t\"go.etcd.io/bbolt\"\n")
 	}
 	sb.WriteString(`)
 
@@ -106,6 +117,58 @@ func vdoc(m map[string]any) []byte {
 	return b
 }
 `)
+	}
+	if bolt {
+		sb.WriteString(`
+var verifTmpFiles []string
+
+// a real bbolt bucket holding the given keys, inside a read transaction of a scratch database
+func vboltbucket(keys, vals [][]byte) *bbolt.Bucket {
+	f, err := os.CreateTemp("", "verifbolt")
+	if err != nil {
+		panic(err)
+	}
+	path := f.Name()
+	f.Close()
+	verifTmpFiles = append(verifTmpFiles, path)
+	db, err := bbolt.Open(path, 0600, nil)
+	if err != nil {
+		panic(err)
+	}
+	err = db.Update(func(tx *bbolt.Tx) error {
+		b, err := tx.CreateBucketIfNotExists([]byte("b"))
+		if err != nil {
+			return err
+		}
+		for i, k := range keys {
+			var v []byte
+			if i < len(vals) {
+				v = vals[i]
+			}
+			if v == nil {
+				v = []byte{}
+			}
+			if err := b.Put(k, v); err != nil {
+				return err
+			}
+		}
+		return nil
+	})
+	if err != nil {
+		panic(err)
+	}
+	tx, err := db.Begin(true)
+	if err != nil {
+		panic(err)
+	}
+	verifOpenTx = append(verifOpenTx, func() { tx.Rollback(); db.Close(); os.Remove(path) })
+	return tx.Bucket([]byte("b"))
+}
+
+var verifOpenTx []func()
+`)
+	} else {
+		sb.WriteString("\nvar verifOpenTx []func()\n")
 	}
 	return sb.String()
 }
@@ -161,6 +224,10 @@ func TestVerifReplay(t *testing.T) {
 	verifParams = rf.Params
 	for i, vec := range rf.Vectors {
 		res := verifRunVector(vec)
+		for _, f := range verifOpenTx {
+			f()
+		}
+		verifOpenTx = nil
 		fmt.Printf("VERIF-REPLAY-RESULT %d %s | %s\n", i, res, strings.Join(verifObs, " "))
 	}
 }
